@@ -158,14 +158,16 @@ def check_keys(case, feats, spec, db, rep, res):
     if rejected:
         res.count("multi_valued_rejected")
         if db is not None or rep != "err ValueError":
-            common.fail(res, case, "multi_valued_id_not_rejected", "an id attribute with several values was not rejected with ValueError",
+            common.fail(res, case, "multi_valued_id_not_rejected",
+                        "an id attribute with several values was not rejected with ValueError",
                         observed=rep, expected="err ValueError")
         return None
     if want is None:
         res.count("create_unique_name_taken")
         return None
     if db is None:
-        common.fail(res, case, "create_db_raised", "create_db raised although every line has a well-defined key: " + rep,
+        common.fail(res, case, "create_db_raised",
+                    "create_db raised although every line has a well-defined key: " + rep,
                     error=rep, observed=rep, expected="ok")
         return None
     got = [str(x["id"]) for x in dbside.rows_of(db)]
@@ -190,7 +192,8 @@ def check_lookups(case, feats, lines, db, got, res):
             if db[g].id != k:
                 common.fail(res, case, "lookup_by_feature_wrong", "db[feature] does not use feature.id", key=k)
         except Exception as ex:
-            common.fail(res, case, "lookup_raised", "db[%r] raised %r" % (k, ex), error=dbside.err_name(ex), key=k, observed=repr(ex))
+            common.fail(res, case, "lookup_raised",
+                        "db[%r] raised %r" % (k, ex), error=dbside.err_name(ex), key=k, observed=repr(ex))
     for absent in ["__absent__", got[0] + "_zz", ""]:
         if absent in got:
             continue
@@ -200,7 +203,8 @@ def check_lookups(case, feats, lines, db, got, res):
         except gffutils.FeatureNotFoundError:
             pass
         except Exception as ex:
-            common.fail(res, case, "absent_key_wrong_exception", "an absent key raised %r instead of FeatureNotFoundError" % ex,
+            common.fail(res, case, "absent_key_wrong_exception",
+                        "an absent key raised %r instead of FeatureNotFoundError" % ex,
                         key=absent, observed=repr(ex))
 
 
@@ -221,13 +225,16 @@ def check_delete(case, db, got, res):
         try:
             g = db[k]
             if k in victims:
-                common.fail(res, case, "deleted_feature_returned", "db[key] returned a feature that was deleted (FeatureNotFoundError "
+                common.fail(res, case, "deleted_feature_returned",
+                            "db[key] returned a feature that was deleted (FeatureNotFoundError "
                             "expected)", key=k, deleted=victims, observed=str(g), expected="FeatureNotFoundError")
             elif g.id != k:
-                common.fail(res, case, "lookup_wrong_after_delete", "db[key] wrong after a deletion", key=k, deleted=victims)
+                common.fail(res, case, "lookup_wrong_after_delete",
+                            "db[key] wrong after a deletion", key=k, deleted=victims)
         except gffutils.FeatureNotFoundError:
             if k not in victims:
-                common.fail(res, case, "lookup_lost_after_delete", "db[key] lost a feature that was not deleted", key=k, deleted=victims)
+                common.fail(res, case, "lookup_lost_after_delete",
+                            "db[key] lost a feature that was not deleted", key=k, deleted=victims)
 
 
 GTF_DEFAULT = [gen_db.gtf_line("chr1", "gene", 1, 100, "+", [("gene_id", ["G"])]),
@@ -242,7 +249,8 @@ def check_gtf_default(ctx, case, res):
     db, rep = dbside.py_create(path, dbside.Cfg.from_json(case["config"]))
     got = [str(x["id"]) for x in dbside.rows_of(db)] if db else rep
     if got != case["expected_keys"]:
-        common.fail(res, case, "gtf_default_keys", "default GTF id_spec: keys are not gene_id / transcript_id / <featuretype>_<n>",
+        common.fail(res, case, "gtf_default_keys",
+                    "default GTF id_spec: keys are not gene_id / transcript_id / <featuretype>_<n>",
                     observed=got, expected=case["expected_keys"])
 
 
